@@ -31,6 +31,15 @@ AltEncs(t) ==
 IntPatterns == {<<a, b, b2, c, c, c2, e, f>> : a \in IntBytes, b \in IntBytes, b2 \in {0, 255},
                                               c \in {0, 255}, c2 \in IntBytes, e \in IntBytes, f \in IntBytes}
 
+(* wide, shallow trees: a constructed root with w children around the counts where a parser that bounds the NUMBER of   *)
+(* constructed elements (instead of their nesting depth) would give up: 64 attribute-like children hold 128 of them      *)
+Widths == (60..66) \cup (125..131) \cup {200}
+EmptySeq == Cons(0, 16, <<>>)
+AttrLike(i) == Cons(0, 16, <<Prim(0, 4, <<97 + (i % 26)>>), Cons(0, 17, <<Prim(0, 4, <<i % 256>>)>>)>>)
+WideTrees == {Cons(0, 16, [i \in 1..w |-> EmptySeq]) : w \in Widths}
+             \cup {Cons(1, 4, [i \in 1..w |-> AttrLike(i)]) : w \in Widths}
+             \cup {Cons(0, 16, [i \in 1..w |-> IF i % 2 = 0 THEN Prim(0, 2, <<i % 128>>) ELSE Cons(2, 0, <<Prim(0, 4, <<>>)>>)]) : w \in Widths}
+
 VARIABLES mode, t, d
 vars == <<mode, t, d>>
 
@@ -38,6 +47,7 @@ Init == \/ mode = "tree" /\ t \in Leaves /\ d = 0
         \/ mode = "int"  /\ t \in IntPatterns /\ d = 0
         \/ mode = "len"  /\ t \in Lens /\ d = 0
         \/ mode = "bool" /\ t \in BOOLEAN /\ d = 0
+        \/ mode = "wide" /\ t \in WideTrees /\ d = 0
 
 Next == /\ mode = "tree" /\ d < MaxDepth /\ (t.prim => (Len(t.v) <= 2 \/ Len(t.v) \in GrowLens)) /\ d' = d + 1 /\ mode' = mode
         /\ \/ /\ d = 0
@@ -54,15 +64,16 @@ Spec == Init /\ [][Next]_vars
 Tail2 == <<170, 187>>
 
 (* --- the laws of C07 on the specification itself --- *)
+TreeMode == mode \in {"tree", "wide"}
 RoundTrip ==
-  mode = "tree" =>
+  TreeMode =>
     LET e == Enc(t)  r == Dec(e \o Tail2, 1) IN
       /\ r.ok /\ r.t = t /\ r.p = Len(e) + 1            \* trailing bytes untouched
       /\ DecOne(e).ok /\ DecOne(e).t = t
 AltsDecode ==
-  mode = "tree" => \A a \in AltEncs(t) : DecOne(a).ok /\ DecOne(a).t = t
+  TreeMode => \A a \in AltEncs(t) : DecOne(a).ok /\ DecOne(a).t = t
 EncIsAnAlt ==
-  mode = "tree" => Enc(t) \in AltEncs(t)
+  TreeMode => Enc(t) \in AltEncs(t)
 LenMinimal ==
   mode = "len" => /\ LenOct(t) \in AltLenAll(t)
                   /\ \A a \in AltLenAll(t) : Len(LenOct(t)) <= Len(a)
@@ -77,7 +88,7 @@ BoolLaw == mode = "bool" => BoolContent(t) = IF t THEN <<255>> ELSE <<0>>
 (* --- vector output (S -> I) --- *)
 Emit ==
   ~EmitVectors \/
-  CASE mode = "tree" -> PrintT(<<"VEC", ToJson([m |-> "tree", tree |-> t, enc |-> Enc(t), alts |-> AltEncs(t)])>>)
+  CASE TreeMode -> PrintT(<<"VEC", ToJson([m |-> "tree", tree |-> t, enc |-> Enc(t), alts |-> AltEncs(t)])>>)
     [] mode = "int"  -> PrintT(<<"VEC", ToJson([m |-> "int", b8 |-> t, content |-> IntContent(t)])>>)
     [] mode = "len"  -> PrintT(<<"VEC", ToJson([m |-> "len", n |-> t, hdr |-> Header(0, 4, TRUE, t), alts |-> AltLenAll(t)])>>)
     [] mode = "bool" -> PrintT(<<"VEC", ToJson([m |-> "bool", b |-> t, content |-> BoolContent(t)])>>)
